@@ -161,9 +161,18 @@ impl ast::Visit for Visitor<'_, '_> {
 
             ast::StmtKind::CallSub { .. } => unimplemented!("need to check arg types against signature"),
 
-            ast::StmtKind::InterruptLabel { .. } => {},
+            // the operands of `interrupt[n]:` and `+n:` are const-evaluated later; they must be integers
+            ast::StmtKind::InterruptLabel(expr) => {
+                if let Err(e) = self.check_cond(expr) {
+                    self.errors.set(e);
+                }
+            },
+            ast::StmtKind::RelTimeLabel { delta, .. } => {
+                if let Err(e) = self.check_cond(delta) {
+                    self.errors.set(e);
+                }
+            },
             ast::StmtKind::AbsTimeLabel { .. } => {},
-            ast::StmtKind::RelTimeLabel { .. } => {},
             ast::StmtKind::Label { .. } => {},
             ast::StmtKind::ScopeEnd { .. } => {},
             ast::StmtKind::NoInstruction { .. } => {},
